@@ -37,9 +37,9 @@ def run(chk, tier):
 
 
 def range_assignment(chk, F, rule, cfg):
-    fn = F.fn('assemble::MockAssembler::new_call_pattern')
-    inline = lambda f, d, n: f.kind in ('fn', 'assoc') and len(f.blocks) < 30 and not re.search(r'into_counter', f.defp)  # noqa: E731
-    paths = symex.Interp(F, inline=inline).run(fn)
+    fn, BUILDER, builds = A.pattern_builds(F)
+    paths = [p for p, _ in builds]
+    built = {id(p): v for p, v in builds}
     chk.analysed(fn)
 
     def mode(p):
@@ -71,12 +71,12 @@ def range_assignment(chk, F, rule, cfg):
         chk.ob(rule, 'new_call_pattern branches on the pattern match mode', m in ('InOrder', 'InAnyOrder'), config=cfg, fn=fn, site='mode', unrecognised=True, what='mode switch not recognised',
                found=[show(d.value) for d in p.decisions])
         writes = [e for e in p.effects if e.kind == 'write' and e.data[0][1][-1:] == (('f', 'current_call_index'),)]
-        if p.outcome[0] != 'return':
+        if p.outcome[0] != 'return' and built.get(id(p)) is None:
             # the `expect` on inexact ordered patterns: allowed to diverge only for ordered + not exact
             ok = m == 'InOrder' and exactness(p) != 'Exact'
             chk.ob(rule, 'only an inexact ordered pattern may abort assembly', ok, config=cfg, fn=fn, site='abort', what='abort in %s/%s' % (m, exactness(p)), found=str(p.outcome[:2]))
             continue
-        v = strip(p.outcome[1])
+        v = built.get(id(p)) or ('unk', '')
         d = dict(v[4]) if v[0] == 'agg' else {}
         rng = strip(d.get('ordered_call_index_range', ('unk', '')))
         if m == 'InAnyOrder':
@@ -110,10 +110,10 @@ def range_assignment(chk, F, rule, cfg):
         okw = len(writes) == 1 and end is not None and strip(writes[0].data[1]) == strip(end)
         chk.ob(rule, 'ordered pattern: cursor advances to range.end', okw, config=cfg, fn=fn, site='cursor', what='cursor\' = %s' % ([show(w.data[1])[:100] for w in writes]), found=[show(w.data[1]) for w in writes], expected='range.end')
         cc = strip(d.get('call_counter', ('unk', '')))
-        exp_ok = mentions(cc, lambda x: field_path(x) == (('param', 0, 2), ['count_expectation']))
+        exp_ok = mentions(cc, lambda x: field_path(x) == (('param', 0, BUILDER), ['count_expectation']))
         chk.ob(rule, 'the builder\'s count expectation moves into the pattern\'s counter unchanged', exp_ok, config=cfg, fn=fn, site='expectation', what='count expectation provenance', found=show(cc)[:200])
         for k in ('input_matcher', 'responders'):
-            chk.ob(rule, 'pattern.%s is the builder\'s' % k, field_path(d.get(k, ('unk', ''))) == (('param', 0, 2), [k]), config=cfg, fn=fn, site=k, what='%s provenance' % k, found=show(d.get(k, ('unk', ''))))
+            chk.ob(rule, 'pattern.%s is the builder\'s' % k, field_path(d.get(k, ('unk', ''))) == (('param', 0, BUILDER), [k]), config=cfg, fn=fn, site=k, what='%s provenance' % k, found=show(d.get(k, ('unk', ''))))
     chk.ob(rule, 'ordered arm of new_call_pattern analysed', n_ord >= 1, config=cfg, fn=fn, site='ordered', unrecognised=True, what='no ordered path')
     # R18.4: the cursor is used nowhere else
     acc = L.field_accesses(F, 'assemble::MockAssembler', 'current_call_index')
@@ -130,7 +130,7 @@ def range_assignment(chk, F, rule, cfg):
                     chk.ob(rule, 'a new assembler starts with the slot cursor at 0', c0 == ('c', 0), config=cfg, fn=mf, site='cursor-init', what='initial cursor %s' % show(c0), found=show(c0), expected='0')
     chk.floor(rule, 'functions that build an assembler', len(makers), 1, config=cfg)
     users = L.attributed(F, [a for a in acc if not (a[2] == 'construct' and a[0].defp in makers)])
-    chk.ob(rule, 'the slot cursor is only used by new_call_pattern (and initialised where an assembler is built)', set(users) <= {'assemble::MockAssembler::new_call_pattern'}, config=cfg,
+    chk.ob(rule, 'the slot cursor is only used by new_call_pattern (and initialised where an assembler is built)', set(users) <= {'assemble::MockAssembler::new_call_pattern', fn.defp}, config=cfg,
            site='field:current_call_index', what='users of the slot cursor', found=users)
     # exact_calls = Some(minimum) iff Exact
     ec = F.fn('counter::CallCountExpectation::exact_calls')
